@@ -17,7 +17,13 @@ class BitTrace:
     def clone_model(self):
         t = BitTrace()
         t.fields, t.cursor, t.partial = [list(f) for f in self.fields], self.cursor, self.partial
+        t.crc_mark = getattr(self, 'crc_mark', None)
         return t
+
+    def method(self, eng, name, args, kwargs, e):
+        if name == 'tell':
+            return self.readpos() // 8
+        raise Unsupported(f'stream.{name}')
 
     def total(self):
         return sum(n for n, _ in self.fields)
@@ -97,15 +103,68 @@ class BitsWriter:
 
 
 class BitsBytes:
-    """w.toBytes(): the first nbits of the trace as bytes (only handed to the CRC model)"""
+    """bytes view [start, end) (in bits) of a trace: w.toBytes(), r.data, slices of them (only handed to the CRC model)"""
 
-    def __init__(self, bits, nbits):
-        self.bits, self.nbits = bits, nbits
+    def __init__(self, bits, end, start=0, nfields=None):
+        self.bits, self.start, self.end = bits, start, end
+        self.nfields = len(bits.fields) if nfields is None else nfields     # how many fields existed when taken
+
+    def len(self, eng):
+        return (self.end - self.start) // 8
+
+    def getslice(self, eng, lo, hi):
+        lo = 0 if lo is None else lo
+        hi = (self.end - self.start) // 8 if hi is None else hi
+        if not isinstance(lo, int) or not isinstance(hi, int):
+            raise Unsupported('symbolic slice of encoded bytes')
+        return BitsBytes(self.bits, self.start + 8 * hi, self.start + 8 * lo, self.nfields)
+
+    def method(self, eng, name, args, kwargs, e):
+        if name == 'tolist':
+            return self
+        raise Unsupported(f'bytes.{name}')
+
+
+class CrcModel:
+    """crccheck.crc.Crc32Mpeg2 (external, trusted): final() over data d is an uninterpreted 32-bit value crc(d), with the
+    single assumed property (CRC residue): crc(d || be32(crc(d))) == 0."""
+
+    def __init__(self):
+        self.data = None
+
+    def method(self, eng, name, args, kwargs, e):
+        if name == 'process':
+            if not isinstance(args[0], BitsBytes) or self.data is not None:
+                raise Unsupported('Crc32Mpeg2.process')
+            self.data = args[0]
+            return None
+        if name == 'final':
+            d = self.data
+            bits = d.bits
+            if d.start == 0 and d.end == sum(n for n, _ in bits.fields[:d.nfields]) and getattr(bits, 'crc_mark', None) is None \
+                    and d.nfields == len(bits.fields):
+                # encode side: CRC of everything written so far
+                c = fresh('crc32')
+                eng.assume(z3.And(c >= 0, c < 2 ** 32))
+                bits.crc_mark = (len(bits.fields), c)
+                return c
+            mark = getattr(bits, 'crc_mark', None)
+            if mark is not None and d.start == 0 and len(bits.fields) == mark[0] + 1 and bits.fields[-1][0] == 32 \
+                    and bits.fields[-1][1].eq(mark[1]) and d.end == bits.total():
+                return z3.IntVal(0)          # residue property
+            return fresh('crc32_of_other_data')
+        raise Unsupported(f'Crc32Mpeg2.{name}')
 
 
 class BitsReader:
     def __init__(self, bits, kwargs):
         self.bits, self.kwargs = bits, kwargs
+
+    def getattr(self, eng, attr):
+        if attr == 'data':
+            return BitsBytes(self.bits, self.bits.total())
+        from ..vals import BoundMethod
+        return BoundMethod(self, attr)
 
     def method(self, eng, name, args, kwargs, e):
         b = self.bits
